@@ -1,29 +1,479 @@
+// c49 drives the real rpc.Server for property C49 (JSON-RPC answers every call exactly once).
+//
+//	-mode replay -in graph.json   schedules enumerated by TLC from spec/net/MCRPCSched.tla are
+//	                              forced on a real rpc.Server inside a testing/synctest bubble:
+//	                              the test service's methods are harness code blocking on gates,
+//	                              the timeout is fired by advancing the bubble's fake clock; after
+//	                              every environment step the raw bytes written by the server are
+//	                              parsed and compared with the model's output sequence (R)
+//
+// Transports: "conn" = rpc.Server.ServeCodec over net.Pipe (persistent connection),
+// "http" = rpc.Server.ServeHTTP with a request context carrying the timeout.
+//
+// Build with GOEXPERIMENT=synctest (go1.24).
 package main
 
 import (
+	"bytes"
 	"context"
+	"encoding/json"
+	"flag"
 	"fmt"
+	"io"
+	"net"
+	"net/http"
 	"net/http/httptest"
+	"os"
 	"strings"
+	"sync"
+	"testing/synctest"
 	"time"
 
 	"github.com/ethereum/go-ethereum/rpc"
+	tl "verif/harness/tracelib"
 )
 
-type svc struct{}
+const timeout = 10 * time.Second // fake time inside the bubble
 
-func (svc) Block(ctx context.Context) string { time.Sleep(300 * time.Millisecond); return "late" }
+// ---------------------------------------------------------------- the test service
+
+type gate struct {
+	ch       chan struct{}
+	entered  bool
+	released bool
+}
+
+type subRec struct {
+	n  *rpc.Notifier
+	id rpc.ID
+}
+
+type rpcWorld struct {
+	mu     sync.Mutex
+	mode   string
+	meta   map[string]any
+	pathNo int
+	srv    *rpc.Server
+	gates  map[int]*gate
+	subs   []subRec
+	sent   []int
+	nrecv  int
+	// conn
+	cli, srvEnd net.Conn
+	outBuf      bytes.Buffer
+	done        sync.WaitGroup
+	// http
+	recs   []*httptest.ResponseRecorder
+	served []bool
+}
+
+type service struct{ w *rpcWorld }
+
+var (
+	retVal = "ok345678"                                                   // 10 bytes as JSON
+	bigVal = strings.Repeat("B", 58)                                      // 60 bytes as JSON
+	errMsg = ""                                                           // set in init: error object of exactly szErr bytes
+)
+
+type svcError struct{ msg string }
+
+func (e svcError) Error() string  { return e.msg }
+func (e svcError) ErrorCode() int { return -32000 }
+
+func (s *service) Ret() string { return retVal }
+func (s *service) Big() string { return bigVal }
+func (s *service) Err() error  { return svcError{errMsg} }
+
+// Blk blocks until the harness opens the gate of this call. It deliberately ignores ctx: a method
+// need not return when the request times out (handler.go: "the currently-running method might not
+// return immediately on timeout").
+func (s *service) Blk(ctx context.Context, tag int) string {
+	w := s.w
+	w.mu.Lock()
+	g := w.gates[tag]
+	if g == nil {
+		g = &gate{ch: make(chan struct{})}
+		w.gates[tag] = g
+	}
+	g.entered = true
+	w.mu.Unlock()
+	<-g.ch
+	return retVal
+}
+
+// Feed is a subscription: it notifies once from inside the call (before the response can have been
+// written) and later whenever the harness says so.
+func (s *service) Feed(ctx context.Context, tag int) (*rpc.Subscription, error) {
+	n, ok := rpc.NotifierFromContext(ctx)
+	if !ok {
+		return nil, rpc.ErrNotificationsUnsupported
+	}
+	sub := n.CreateSubscription()
+	w := s.w
+	w.mu.Lock()
+	w.subs = append(w.subs, subRec{n, sub.ID})
+	w.sent = append(w.sent, 1)
+	w.mu.Unlock()
+	n.Notify(sub.ID, 1)
+	return sub, nil
+}
+
+// ---------------------------------------------------------------- world
+
+func num(v any) int { return int(v.(float64)) }
+
+func newRPCWorld(meta map[string]any, pathNo int) *rpcWorld {
+	w := &rpcWorld{mode: meta["mode"].(string), meta: meta, pathNo: pathNo, gates: map[int]*gate{}}
+	w.srv = rpc.NewServer()
+	w.srv.SetBatchLimits(num(meta["batchLimit"]), num(meta["sizeLimit"]))
+	if err := w.srv.RegisterName("t", &service{w}); err != nil {
+		tl.Fatal("register: %v", err)
+	}
+	if w.mode == "conn" {
+		w.cli, w.srvEnd = net.Pipe()
+		w.done.Add(2)
+		go func() {
+			defer w.done.Done()
+			w.srv.ServeCodec(rpc.NewCodec(w.srvEnd), 0)
+		}()
+		go func() {
+			defer w.done.Done()
+			buf := make([]byte, 4096)
+			for {
+				n, err := w.cli.Read(buf)
+				w.mu.Lock()
+				w.outBuf.Write(buf[:n])
+				w.mu.Unlock()
+				if err != nil {
+					return
+				}
+			}
+		}()
+	}
+	return w
+}
+
+func entryJSON(e map[string]any, tag int, variant int) string {
+	id := num(e["id"])
+	meth, params := "", ""
+	switch e["m"].(string) {
+	case "ret":
+		meth = "t_ret"
+	case "big":
+		meth = "t_big"
+	case "err":
+		meth = "t_err"
+	case "blk":
+		meth, params = "t_blk", fmt.Sprintf(`,"params":[%d]`, tag)
+	case "sub":
+		meth, params = "t_subscribe", fmt.Sprintf(`,"params":["feed",%d]`, tag)
+	}
+	switch e["k"].(string) {
+	case "call":
+		return fmt.Sprintf(`{"jsonrpc":"2.0","id":%d,"method":"%s"%s}`, id, meth, params)
+	case "notif":
+		return fmt.Sprintf(`{"jsonrpc":"2.0","method":"%s"%s}`, meth, params)
+	case "inv":
+		if id == 0 {
+			return [...]string{`{}`, `{"jsonrpc":"2.0"}`, `{"foo":"bar"}`}[variant%3]
+		}
+		return fmt.Sprintf([...]string{`{"jsonrpc":"1.0","id":%d,"method":"t_ret"}`, `{"jsonrpc":"2.0","id":%d}`, `{"id":%d,"method":"t_ret"}`}[variant%3], id)
+	case "resp":
+		return fmt.Sprintf(`{"jsonrpc":"2.0","id":%d,"result":"unsolicited"}`, id)
+	}
+	tl.Fatal("bad entry %v", e)
+	return ""
+}
+
+func (w *rpcWorld) messageJSON(m map[string]any, p int) string {
+	items := m["items"].([]any)
+	var parts []string
+	for i, it := range items {
+		parts = append(parts, entryJSON(it.(map[string]any), p*100+i+1, w.pathNo+i))
+	}
+	if m["batch"].(bool) {
+		return "[" + strings.Join(parts, ",") + "]"
+	}
+	return parts[0]
+}
+
+func (w *rpcWorld) Do(act map[string]any) {
+	switch act["op"].(string) {
+	case "Recv":
+		w.nrecv++
+		p := w.nrecv
+		body := w.messageJSON(act["m"].(map[string]any), p)
+		if w.mode == "conn" {
+			if _, err := w.cli.Write([]byte(body + "\n")); err != nil {
+				tl.Fatal("pipe write: %v", err)
+			}
+		} else {
+			ctx := context.Background()
+			var cancel context.CancelFunc = func() {}
+			if w.meta["hasTimeout"].(bool) {
+				if w.pathNo%2 == 0 {
+					ctx, cancel = context.WithTimeout(ctx, timeout)
+				} else { // the http.Server.WriteTimeout route of ContextRequestTimeout
+					ctx = context.WithValue(ctx, http.ServerContextKey, &http.Server{WriteTimeout: timeout + 100*time.Millisecond})
+				}
+			}
+			req := httptest.NewRequest("POST", "/", strings.NewReader(body)).WithContext(ctx)
+			req.Header.Set("content-type", "application/json")
+			rec := httptest.NewRecorder()
+			w.mu.Lock()
+			w.recs = append(w.recs, rec)
+			w.served = append(w.served, false)
+			idx := len(w.recs) - 1
+			w.mu.Unlock()
+			w.done.Add(1)
+			go func() {
+				defer w.done.Done()
+				defer cancel()
+				w.srv.ServeHTTP(rec, req)
+				w.mu.Lock()
+				w.served[idx] = true
+				w.mu.Unlock()
+			}()
+		}
+	case "Release":
+		p := num(act["p"])
+		w.mu.Lock()
+		var open []*gate
+		for tag, g := range w.gates {
+			if tag/100 == p && g.entered && !g.released {
+				g.released = true
+				open = append(open, g)
+			}
+		}
+		w.mu.Unlock()
+		if len(open) != 1 {
+			tl.Fatal("Release(%d): %d blocked methods", p, len(open))
+		}
+		close(open[0].ch)
+	case "Timer":
+		time.Sleep(timeout + time.Second)
+	case "Notify":
+		j := num(act["p"]) - 1
+		w.mu.Lock()
+		if j >= len(w.subs) {
+			w.mu.Unlock()
+			tl.Fatal("Notify(%d): no such subscription", j+1)
+		}
+		s := w.subs[j]
+		w.sent[j]++
+		k := w.sent[j]
+		w.mu.Unlock()
+		s.n.Notify(s.id, k)
+	default:
+		tl.Fatal("unknown action %v", act)
+	}
+	synctest.Wait()
+}
+
+type respObs struct {
+	ID   int    `json:"id"`
+	Kind string `json:"kind"`
+	Sub  int    `json:"sub"`
+}
+type outObs struct {
+	T   string    `json:"t"`
+	Rs  []respObs `json:"rs"`
+	Sub int       `json:"sub"`
+	K   int       `json:"k"`
+}
+type obsT struct {
+	Out     []outObs `json:"out"`
+	Blocked []bool   `json:"blocked"`
+	Served  bool     `json:"served"`
+}
+
+type wireMsg struct {
+	ID     json.RawMessage `json:"id"`
+	Method string          `json:"method"`
+	Params json.RawMessage `json:"params"`
+	Error  *struct {
+		Code int `json:"code"`
+	} `json:"error"`
+	Result json.RawMessage `json:"result"`
+}
+
+func (w *rpcWorld) subIndex(id string) int {
+	for j, s := range w.subs {
+		if string(s.id) == id {
+			return j + 1
+		}
+	}
+	return 0
+}
+
+func (w *rpcWorld) classify(m wireMsg) respObs {
+	r := respObs{}
+	if len(m.ID) > 0 && string(m.ID) != "null" {
+		if err := json.Unmarshal(m.ID, &r.ID); err != nil {
+			r.ID = -1
+		}
+	}
+	switch {
+	case m.Error == nil:
+		r.Kind = "ok"
+		var s string
+		if json.Unmarshal(m.Result, &s) == nil {
+			r.Sub = w.subIndex(s)
+		}
+	case m.Error.Code == -32002:
+		r.Kind = "timeout"
+	case m.Error.Code == -32003:
+		r.Kind = "toolarge"
+	case m.Error.Code == -32600:
+		r.Kind = "invalid"
+	default:
+		r.Kind = "err"
+	}
+	return r
+}
+
+// parseOut splits the raw bytes written by the server into top-level JSON values.
+func (w *rpcWorld) parseOut(raw []byte) []outObs {
+	out := []outObs{}
+	dec := json.NewDecoder(bytes.NewReader(raw))
+	for {
+		var v json.RawMessage
+		if err := dec.Decode(&v); err != nil {
+			if err != io.EOF {
+				out = append(out, outObs{T: "garbage", Rs: []respObs{}})
+			}
+			return out
+		}
+		t := bytes.TrimSpace(v)
+		if len(t) > 0 && t[0] == '[' {
+			var ms []wireMsg
+			o := outObs{T: "batch", Rs: []respObs{}}
+			if err := json.Unmarshal(t, &ms); err != nil {
+				o.T = "garbage"
+			}
+			for _, m := range ms {
+				o.Rs = append(o.Rs, w.classify(m))
+			}
+			out = append(out, o)
+			continue
+		}
+		var m wireMsg
+		if err := json.Unmarshal(t, &m); err != nil {
+			out = append(out, outObs{T: "garbage", Rs: []respObs{}})
+			continue
+		}
+		if strings.HasSuffix(m.Method, "_subscription") {
+			var p struct {
+				Subscription string `json:"subscription"`
+				Result       int    `json:"result"`
+			}
+			json.Unmarshal(m.Params, &p)
+			out = append(out, outObs{T: "note", Rs: []respObs{}, Sub: w.subIndex(p.Subscription), K: p.Result})
+			continue
+		}
+		out = append(out, outObs{T: "single", Rs: []respObs{w.classify(m)}})
+	}
+}
+
+func (w *rpcWorld) Observe() any {
+	w.mu.Lock()
+	defer w.mu.Unlock()
+	var raw []byte
+	served := false
+	if w.mode == "conn" {
+		raw = append(raw, w.outBuf.Bytes()...)
+	} else {
+		served = len(w.recs) > 0
+		for i, r := range w.recs {
+			raw = append(raw, r.Body.Bytes()...)
+			served = served && w.served[i]
+		}
+	}
+	o := obsT{Out: w.parseOut(raw), Served: served}
+	n := num(w.meta["maxMsgs"])
+	for p := 1; p <= n; p++ {
+		b := false
+		for tag, g := range w.gates {
+			if tag/100 == p && g.entered && !g.released {
+				b = true
+			}
+		}
+		o.Blocked = append(o.Blocked, b)
+	}
+	return o
+}
+
+func (w *rpcWorld) Cleanup() {
+	w.mu.Lock()
+	for _, g := range w.gates {
+		if !g.released {
+			g.released = true
+			close(g.ch)
+		}
+	}
+	w.mu.Unlock()
+	synctest.Wait()
+	// a method may have been entered only now (after an earlier one was released)
+	for i := 0; i < 8; i++ {
+		w.mu.Lock()
+		n := 0
+		for _, g := range w.gates {
+			if !g.released {
+				g.released = true
+				close(g.ch)
+				n++
+			}
+		}
+		w.mu.Unlock()
+		if n == 0 {
+			break
+		}
+		synctest.Wait()
+	}
+	if w.mode == "conn" {
+		w.cli.Close()
+	}
+	w.srv.Stop()
+	w.done.Wait()
+}
+
+// sizes of the response payloads the model's size limit is computed from
+func checkSizes(meta map[string]any) {
+	base, _ := json.Marshal(map[string]any{"code": -32000, "message": ""})
+	pad := num(meta["szErr"]) - len(base)
+	if pad < 0 {
+		tl.Fatal("szErr too small")
+	}
+	errMsg = strings.Repeat("e", pad)
+	rj, _ := json.Marshal(retVal)
+	bj, _ := json.Marshal(bigVal)
+	inv := `{"code":-32600,"message":"invalid request"}`
+	if len(rj) != num(meta["szRet"]) || len(bj) != num(meta["szBig"]) || len(inv) != num(meta["szInv"]) {
+		tl.Fatal("payload sizes differ from the model constants: ret %d big %d inv %d", len(rj), len(bj), len(inv))
+	}
+}
 
 func main() {
-	srv := rpc.NewServer()
-	srv.RegisterName("t", svc{})
-	for _, body := range []string{`{"jsonrpc":"2.0","method":"t_block"}`, `{"jsonrpc":"2.0","id":1,"method":"t_block"}`, `[{"jsonrpc":"2.0","method":"t_block"}]`, `[{"jsonrpc":"2.0","method":"t_block"},{"jsonrpc":"2.0","id":2,"method":"t_block"}]`} {
-		ctx, cancel := context.WithTimeout(context.Background(), 50*time.Millisecond)
-		req := httptest.NewRequest("POST", "/", strings.NewReader(body)).WithContext(ctx)
-		req.Header.Set("content-type", "application/json")
-		rec := httptest.NewRecorder()
-		srv.ServeHTTP(rec, req)
-		cancel()
-		fmt.Printf("%s\n  -> %d %q\n", body, rec.Code, rec.Body.String())
+	mode := flag.String("mode", "replay", "replay")
+	in := flag.String("in", "", "schedule graph (replay)")
+	out := flag.String("out", "", "summary output")
+	flag.Parse()
+	seed := int64(tl.EnvInt("VERIF_SEED", 1))
+	sum := tl.NewSummary("c49", *mode, seed)
+	switch *mode {
+	case "replay":
+		sc := loadSched(*in)
+		checkSizes(sc.g.Meta)
+		what := "rpc.Server/" + sc.g.Meta["mode"].(string)
+		explore(sc, func(pathNo int) world { return newRPCWorld(sc.g.Meta, pathNo+int(seed)) }, sum, what)
+		sum.Rule = "evaluations = TLC-derived schedules executed on a real rpc.Server under synctest; distinct = covered (quiescent model state, environment step) pairs of MCRPCSched whose parsed raw output (single/batch responses with id and error class, notifications) and blocked-method set matched the specification"
+	default:
+		tl.Fatal("unknown mode %s", *mode)
+	}
+	if *out != "" {
+		sum.Write(*out)
+	}
+	if len(sum.Violations) > 0 {
+		os.Exit(1)
 	}
 }
